@@ -33,3 +33,22 @@ def concretize(model, term, keys, depth=4):
         if z3.is_true(ev(has(term, z3.StringVal(k)))):
             out[k] = concretize(model, get(term, z3.StringVal(k)), keys, depth - 1)
     return out
+
+
+def model_strings(model, exprs):
+    """values, under the model, of every string-sorted subterm of the expressions (keys chosen by the solver for symbolic dictionary positions)"""
+    out = set(); seen = set(); stack = list(exprs)
+    while stack:
+        e = stack.pop()
+        if e.get_id() in seen: continue
+        seen.add(e.get_id())
+        if z3.is_quantifier(e):
+            continue
+        try:
+            if e.sort() == z3.StringSort() and not z3.is_string_value(e):
+                v = model.eval(e, model_completion=True)
+                if z3.is_string_value(v): out.add(v.as_string())
+        except z3.Z3Exception:
+            pass
+        stack.extend(e.children())
+    return out
